@@ -1,3 +1,19 @@
 from props.common import run_all as run  # noqa: F401
 
-META = {"claimed": False, "reason": "check not built yet (work in progress; the technique applies, see DESIGN.md section 5)"}
+META = {'claimed': True,
+ 'title': 'Event loop: a callback runs at most once, only while registered, only when due',
+ 'level_text': 'proof: events/events.c, events_immediate.c, events_network.c, events_timer.c and the timer queue are modelled as an executable state machine (constants regenerated from the C) driven '
+               'by a program (what each callback does at each of its invocations: register / cancel / reset of any kind, from outside and from inside callbacks), an external call sequence, a '
+               "poll-answer schedule and a clock schedule. The inductive invariant EvInv (DESIGN Appendix B) is proved over all of them: every trace of the model is accepted by the specification's "
+               'checker (C04_model_traces_accepted) and the checker is sound for the logical statement (C04_check_sound); corollaries for every program and schedule: no registration id is invoked '
+               'twice (C04_invoke_at_most_once), every invoke is preceded by its register with no cancel and no earlier invoke (C04_invoke_only_while_registered), EEXIST only while a registration is '
+               'live so a fired or cancelled one can be made again (C04_reregistrable), a descriptor callback runs only if a poll issued after its registration reported that direction or the latest '
+               'poll reported ERR/HUP (C04_socket_invoke_justified), a timer never runs before registration-or-reset reading + timeout, with no monotonicity assumption (C04_timer_not_early). '
+               'Unbounded in program length, number of registrations and schedule. Bound to the C by the correspondence run: generated programs (cancel under the scan cursor, both directions on one '
+               'descriptor, resets, ties) run on the real event loop with poll(2) and the clock interposed; implementation trace = model trace, and the extracted checker is evaluated on the '
+               "IMPLEMENTATION's trace.",
+ 'level_note': 'Trusted: Coq kernel; hand-written Gallina model of events*.c bound by differential execution (ASan/UBSan, interposed poll/clock_gettime); timevals normalised (tv_usec < 10^6) as '
+               'monoclock_get delivers; theorems hold for every fuel (OutOfFuel = no trace; Events/EventsExamples.v exhibits a run in which all three kinds fire). Print Assumptions: closed under the '
+               'global context.',
+ 'trusted_base': ['interposition of poll(2) and clock_gettime in harness/drv_events.c', 'tools/extract/x_events.py'],
+ 'assumptions': ['clock readings and timeouts are normalised timevals', 'callers pass descriptors below the poll-array limits the library documents']}
